@@ -1185,7 +1185,9 @@ def corpus_program():
         if verb in ("load", "house"):
             continue
         slot = SLOT_OF_VERB.get(verb, "FRAME")
-        for c in cmds:
+        for k, c in enumerate(cmds):
+            if verb == "framer":        # distinct framer names, so that every framer form (via, in, at ...) gets in
+                c = c.replace("framer g", "framer g%d" % k, 1)
             add = ["  " + c] + (["frame ga"] if verb == "framer" else [])
             slots[slot].extend(add)
             if not build(text(), extra_files=LOADED, limit=10.0).ok:
